@@ -167,7 +167,10 @@ def rule_r2(ctx: Ctx) -> None:
 
 # ------------------------------------------------------------------------------------------------ R1 / R3 / R4
 TYPE_KINDS = ["BOOL", "UINT8", "UINT_OTHER", "SINT8", "SINT_OTHER", "FLOAT", "OTHER"]
-VALUE_KINDS = ["BOOLEAN", "RAT_INT", "RAT_FRAC", "STR1", "STR_OTHER", "STR_UNENCODABLE", "NONPRIM"]
+# one-character strings are represented by boundary code points (ASCII / Latin-1 / wider / lone surrogate)
+STR1_CODES = [0x00, 0x41, 0x7F, 0x80, 0xFF, 0x100, 0x7FF, 0x800, 0xD800, 0xFFFF, 0x10FFFF]
+VALUE_KINDS = ["BOOLEAN", "RAT_INT", "RAT_FRAC"] + ["STR1_%X" % c for c in STR1_CODES] + ["STR_EMPTY", "STR_MULTI", "NONPRIM"]
+STRING_KINDS = {k for k in VALUE_KINDS if k.startswith("STR")}
 POSITIONS = ["BELOW", "AT_MIN", "INSIDE", "AT_MAX", "ABOVE"]
 
 _TYPE_IS = {
@@ -182,10 +185,10 @@ _TYPE_IS = {
     "SerializableType": set(TYPE_KINDS),
 }
 _VALUE_IS = {
-    "Primitive": {"BOOLEAN", "RAT_INT", "RAT_FRAC", "STR1", "STR_OTHER", "STR_UNENCODABLE"},
+    "Primitive": {"BOOLEAN", "RAT_INT", "RAT_FRAC"} | STRING_KINDS,
     "Boolean": {"BOOLEAN"},
     "Rational": {"RAT_INT", "RAT_FRAC"},
-    "String": {"STR1", "STR_OTHER", "STR_UNENCODABLE"},
+    "String": set(STRING_KINDS),
     "Any": set(VALUE_KINDS),
     "Set": set(),
     "Container": set(),
@@ -195,6 +198,22 @@ _VALUE_IS = {
 class _State:
     def __init__(self, tk: str, vk: str, pos: str):
         self.tk, self.vk, self.pos = tk, vk, pos
+        self.code = int(vk.split("_")[1], 16) if vk.startswith("STR1_") else None
+
+    @property
+    def chars(self) -> int:
+        return 1 if self.code is not None else (0 if self.vk == "STR_EMPTY" else 2)
+
+    @property
+    def encodable(self) -> bool:
+        return self.code is None or not (0xD800 <= self.code <= 0xDFFF)
+
+    @property
+    def utf8_len(self) -> int:
+        if self.code is None:
+            return 0 if self.vk == "STR_EMPTY" else 2
+        c = self.code
+        return 1 if c < 0x80 else 2 if c < 0x800 else 3 if c < 0x10000 else 4
 
 
 def rule_r1(ctx: Ctx) -> None:
@@ -280,10 +299,14 @@ def rule_r1(ctx: Ctx) -> None:
             l, op, r = e.left, e.ops[0], e.comparators[0]
             ls, rs = norm(l), norm(r)
             # len(<utf8 bytes of the string>) ? 1
-            if ls.startswith("len(") and "encode(" in ls and isinstance(r, ast.Constant) and r.value == 1:
+            if ls.startswith("len(") and "encode(" in ls and isinstance(r, ast.Constant) and isinstance(r.value, int):
                 if "value.native_value.encode" not in ls:
                     raise AnalysisError("length test on something else than the string's bytes: %s" % ls)
-                return A("LEN1:%s" % type(op).__name__)
+                return A("LENB:%s:%d" % (type(op).__name__, r.value))
+            if ls == "len(value.native_value)" and isinstance(r, ast.Constant) and isinstance(r.value, int):
+                return A("LENC:%s:%d" % (type(op).__name__, r.value))
+            if ls in ("ord(value.native_value)", "ord(value.native_value.encode('utf8'))") and isinstance(r, ast.Constant) and isinstance(r.value, int):
+                return A("ORD:%s:%d" % (type(op).__name__, r.value))
             if ls in ("data_type.bit_length", "self.data_type.bit_length") and isinstance(r, ast.Constant) and isinstance(r.value, int):
                 return A("BITLEN:%s:%d" % (type(op).__name__, r.value))
             # range comparisons
@@ -296,7 +319,7 @@ def rule_r1(ctx: Ctx) -> None:
                     opn = type(op).__name__
                     if flip:  # value OP bound  ->  bound OP' value
                         opn = {"Lt": "Gt", "LtE": "GtE", "Gt": "Lt", "GtE": "LtE", "Eq": "Eq", "NotEq": "NotEq"}[opn]
-                    return A("RNG:%s:%s" % (which, opn))
+                    return A("RNG:%s:%s:%s" % (which, opn, is_value_native(other)))
         raise AnalysisError("condition outside the C12 abstraction: %s" % norm(e))
 
     def interp(name: str, st: _State) -> bool:
@@ -307,10 +330,17 @@ def rule_r1(ctx: Ctx) -> None:
         if parts[0] == "IS_INTEGER":
             return st.vk == "RAT_INT"
         if parts[0] == "ENC_FAIL":
-            return st.vk == "STR_UNENCODABLE"
-        if parts[0] == "LEN1":
-            one = st.vk == "STR1"
-            return {"Eq": one, "NotEq": not one}.get(parts[1], None) if parts[1] in ("Eq", "NotEq") else _bad(name)
+            return not st.encodable
+        if parts[0] in ("LENB", "LENC", "ORD"):
+            import operator as _op
+
+            if parts[0] == "ORD" and st.code is None:
+                return False  # ord() of a non-single-character string is never reached on a feasible path
+            lhs = st.utf8_len if parts[0] == "LENB" else st.chars if parts[0] == "LENC" else st.code
+            f = {"Eq": _op.eq, "NotEq": _op.ne, "Lt": _op.lt, "LtE": _op.le, "Gt": _op.gt, "GtE": _op.ge}.get(parts[1])
+            if f is None:
+                _bad(name)
+            return f(lhs, int(parts[2]))
         if parts[0] == "BITLEN":
             if int(parts[2]) != 8:
                 _bad(name)
@@ -324,6 +354,10 @@ def rule_r1(ctx: Ctx) -> None:
             which, op = parts[1], parts[2]
             # position of the value relative to bound `which`: cmp(bound, value)
             order = POSITIONS.index(st.pos)
+            if len(parts) > 3 and parts[3] == "converted":
+                # the value is the code point of the character; the type (on accepting paths) is uint8: [0, 255]
+                c = st.code if st.code is not None else 0
+                order = 1 if c == 0 else 3 if c == 255 else 2 if c < 255 else 4
             b = 1 if which == "min" else 3
             # bound ? value
             if op == "LtE":
@@ -358,8 +392,8 @@ def rule_r1(ctx: Ctx) -> None:
         if st.tk in ("UINT8", "UINT_OTHER", "SINT8", "SINT_OTHER"):
             if st.vk == "RAT_INT":
                 return in_range
-            if st.vk == "STR1" and st.tk == "UINT8":
-                return in_range
+            if st.code is not None and st.tk == "UINT8":
+                return st.code <= 0x7F  # exactly one ASCII character
             return False
         if st.tk == "FLOAT":
             return st.vk in ("RAT_INT", "RAT_FRAC") and in_range
@@ -402,8 +436,8 @@ def rule_r1(ctx: Ctx) -> None:
                 else:
                     sv = p.env.get("self._value")
                     svs = norm(sv) if sv is not None else "<unset>"
-                    if vk == "STR1":
-                        good = isinstance(sv, ast.Call) and norm(sv).replace(" ", "").endswith("Rational(ord(value.native_value.encode('utf8')))")
+                    if vk.startswith("STR"):
+                        good = isinstance(sv, ast.Call) and (norm(sv).replace(" ", "").endswith("Rational(ord(value.native_value.encode('utf8')))") or norm(sv).replace(" ", "").endswith("Rational(ord(value.native_value))"))
                     else:
                         good = svs == "value"
                     if not good:
@@ -427,7 +461,7 @@ def rule_r1(ctx: Ctx) -> None:
     acc = cc.methods.get("value")
     rex = _single_return(ctx, acc)
     ctx.check(norm(rex) == "self._value", acc.short, norm(rex), "Constant.value must return the stored value", acc.where())
-    ctx.sample({"rule": "C12.R1", "paths": len(paths), "abstract_states": n_states, "example": "UINT8 x STR1 x AT_MAX -> accept, stored Rational(ord(bytes))"})
+    ctx.sample({"rule": "C12.R1", "paths": len(paths), "abstract_states": n_states, "example": "UINT8 x STR1_7F -> accept, stored Rational(ord(bytes)); UINT8 x STR1_80 -> reject"})
 
 
 def run(ctx: Ctx) -> None:
